@@ -25,18 +25,19 @@ def imageInsert (c : CodeChunk) : Image → Image
 
 def imageStored (img : Image) : Nat := img.foldl (fun s c => s + c.data.length) 0
 
-/-- the bytes `RetrieveCodeFromChunkList` copies in one round of its `while`: the overlap of `[start, start+count-1]`
-with the first chunk that has one -/
+/-- the bytes `RetrieveCodeFromChunkList` copies in one round of its `while`: from the first chunk that is not empty and holds
+the first address still missing (`OverlapStart == Start`), the part of `[start, start+count-1]` that lies in it -/
 def overlapPart (start count : Nat) : Image → Option (List UInt8)
   | [] => none
   | c :: cs =>
     let os := max c.start start
     let oe := min (c.start + c.data.length - 1) (start + count - 1)
-    if 0 < c.data.length ∧ os ≤ oe then some ((c.data.drop (os - c.start)).take (oe - os + 1))
+    if 0 < c.data.length ∧ os = start ∧ os ≤ oe then some ((c.data.drop (os - c.start)).take (oe - os + 1))
     else overlapPart start count cs
 
-/-- `RetrieveCodeFromChunkList(list, Start, buf, Count)`.  As in the C code `Start` is *not* advanced between rounds
-(only `pData` and `Count` are), so a request that runs past the end of a chunk is "completed" from the same chunk again. -/
+/-- `RetrieveCodeFromChunkList(list, Start, buf, Count)`: `Start` advances with the bytes copied (since the repair of
+codechunks.c), so every round continues where the round before ended; `none` = `False` (some address is in no chunk).
+`retrieveCopied` below gives the bytes that were copied into the buffer before the function gave up. -/
 def retrieveF (img : Image) (start : Nat) : Nat → Nat → Option (List UInt8)
   | _, 0 => some []
   | 0, _ => none
@@ -45,7 +46,21 @@ def retrieveF (img : Image) (start : Nat) : Nat → Nat → Option (List UInt8)
     | none => none
     | some part =>
       if part.length = 0 then none
-      else (retrieveF img start fuel (count - part.length)).map (part ++ ·)
+      else (retrieveF img (start + part.length) fuel (count - part.length)).map (part ++ ·)
+
+/-- the bytes `RetrieveCodeFromChunkList` has copied to `pData` when it returns (all of them on success, the leading part that
+could be found on failure) -/
+def retrieveCopiedF (img : Image) (start : Nat) : Nat → Nat → List UInt8
+  | _, 0 => []
+  | 0, _ => []
+  | fuel + 1, count =>
+    match overlapPart start count img with
+    | none => []
+    | some part =>
+      if part.length = 0 then []
+      else part ++ retrieveCopiedF img (start + part.length) fuel (count - part.length)
+
+def retrieveCopied (img : Image) (start count : Nat) : List UInt8 := retrieveCopiedF img start count count
 
 def retrieve (img : Image) (start count : Nat) : Option (List UInt8) := retrieveF img start count count
 
@@ -304,6 +319,21 @@ structure OState where
   out : List String
   dataSize : Int
   hang : Bool := false
+  /-- `Byte Code[100]` of `DisasmIterator`: what the dump loop prints.  A local array without initialiser – `none` = never written
+  in this call -/
+  codeBuf : List (Option UInt8) := []
+
+/-- a hex digit of a byte the C program reads from memory it never wrote: the driver accepts any character there -/
+def undefMark : Char := Char.ofNat 2
+
+/-- `memcpy` of the bytes `RetrieveCodeFromChunkList` copied into `Code`, the rest of the array stays as it was -/
+def bufStore (buf : List (Option UInt8)) (bs : List UInt8) : List (Option UInt8) := bs.map some ++ buf.drop bs.length
+
+/-- model text against the real text: equal up to the characters marked as undefined in the model's text -/
+def matchesUndef (model real : String) : Bool :=
+  let m := model.toList
+  let r := real.toList
+  m.length == r.length && (m.zip r).all (fun p => p.1 == p.2 || p.1 == undefMark)
 
 /-- the `while (Address < Start + Length)` loop of `DisasmIterator` -/
 def disasmLines (dis : Disasm) (img : Image) (lower : Bool) (maxSrc maxLab : Nat) (isData : Bool) (stop : Nat) :
@@ -317,23 +347,30 @@ def disasmLines (dis : Disasm) (img : Image) (lower : Bool) (maxSrc maxLab : Nat
         | none => o.dataSize
       let r := dis img lower o.syms a isData ds
       let info := r.1
+      -- `if (!Info.CodeLen) break;` (since the repair of das.c: nothing could be retrieved here, the area extends beyond the loaded
+      -- image; before it the same line was printed forever)
+      if info.len = 0 then { o with syms := r.2.1, err := o.err ++ r.2.2, dataSize := ds } else
       let l0 := match info.remark with
         | some rm => prTabs maxLab 0 ++ "; " ++ rm ++ "\n"
         | none => ""
       let l1 := match label with
         | some l => l ++ ":" ++ prTabs maxLab (tabbedStrLen l + 1)
         | none => prTabs maxLab 0
-      let bytes := (retrieve img a info.len).getD []
+      -- `RetrieveCodeFromChunkList(&CodeChunks, Address, Code, Info.CodeLen)` (result ignored), then `Code[0..CodeLen)` is printed
+      let buf := bufStore o.codeBuf (retrieveCopied img a info.len)
+      let bytes := (List.range info.len).map (fun z => (buf[z]?).getD none)
       let l2 := info.src ++ prTabs maxSrc (tabbedStrLen info.src) ++ ";" ++
-        String.join (bytes.map (fun b => " " ++ hexString lower b.toNat 2)) ++ "\n"
-      let o' := { o with syms := r.2.1, err := o.err ++ r.2.2, out := o.out ++ [l0 ++ l1 ++ l2], dataSize := ds }
-      if info.len = 0 then { o' with hang := true } else disasmLines dis img lower maxSrc maxLab isData stop fuel (a + info.len) o'
+        String.join (bytes.map (fun b => match b with
+          | some b => " " ++ hexString lower b.toNat 2
+          | none => " " ++ String.ofList [undefMark, undefMark])) ++ "\n"
+      let o' := { o with syms := r.2.1, err := o.err ++ r.2.2, out := o.out ++ [l0 ++ l1 ++ l2], dataSize := ds, codeBuf := buf }
+      disasmLines dis img lower maxSrc maxLab isData stop fuel (a + info.len) o'
     else o
 
 def disasmIterator (dis : Disasm) (img : Image) (lower : Bool) (maxSrc maxLab : Nat) (o : OState) (c : Chunk) (isData : Bool) : OState :=
   let head := "\n" ++ prTabs maxLab 0 ++ "org\t" ++ toString c.start ++ "\n"
   disasmLines dis img lower maxSrc maxLab isData (c.start + c.len) (c.len + 1) c.start
-    { o with out := o.out ++ [head], dataSize := -1 }
+    { o with out := o.out ++ [head], dataSize := -1, codeBuf := [] }
 
 def dumpChunks (lower : Bool) (img : Image) (areas : List (Chunk × Bool)) : List String :=
   let sum := areas.foldl (fun s p => s + p.1.len) 0
@@ -351,7 +388,8 @@ structure Result where
   codeC : List Chunk
   traced : List (Nat × Nat)
   vectors : List (Nat × Nat)
-  /-- fuel ran out / a zero-length line inside an area: the C program would not terminate -/
+  /-- fuel ran out: the C program would not terminate (a zero-length line inside an area used to be such a case; das.c now
+  leaves the area at that line) -/
   hang : Bool
 
 /-- whole run: options in command-line order, trace, output -/
